@@ -104,9 +104,10 @@ OBLIGATIONS = [
              "[0, size) (independent interval-union model), the share is finalised exactly then and close() fires exactly then; `required` is exactly the set of unwritten "
              "bytes (probe); same visible shares and byte-identical file system afterwards",
         outside="a refused chunk longer than 65536 bytes (class rejected-chunk-longer-than-64KiB, see report) and zero-length chunks (class zero-length-write)"),
-    chx("server_write_chunk", "C31_h", "h_server_write_chunk", timeout=T, bounds=_b(body_max=(4 * K, 5 * K)),
+    chx("server_write_chunk", "C31_h", "h_server_write_chunk", timeout=T, bounds=_b(body_max=(3 * K, 5 * K)),
+        cases=[{"mode": "ok", "_label": "accepted"}, {"mode": "conflict", "_label": "a-piece-refused"}, {"mode": "bad-header", "_label": "no-byte-content-range"}],
         desc="HTTPServer.write_share_data + UploadsInProgress.get_write_bucket + StorageClientImmutables.write_share_chunk alone on a RECORDING bucket (unbounded "
-             "offset, body <= 4*65536, the bucket reports `finished` from a symbolic piece on, refuses a symbolic piece with ConflictingWriteError, and reports a "
+             "offset, body <= 3*65536, the bucket reports `finished` from a symbolic piece on, refuses a symbolic piece with ConflictingWriteError, and reports a "
              "symbolic required range): the body is written in order in contiguous pieces of at most 65536 bytes starting at the announced offset; 409 and no close at "
              "the first refused piece; otherwise the client sees finished == the bucket's answer for the last piece, the bucket is closed exactly then, and `required` "
              "is the bucket's required_ranges(); a PATCH whose Content-Range is missing or not in bytes -> 416, nothing written"),
